@@ -320,11 +320,12 @@ func (c *MultiConn) sendHeartbeat() {
 		return
 	}
 	sendStart := time.Now()
-	if ok := stream.queueSend(&Packet{
+	// queueSend reads Stream.closed and sends on sendQueue, both written by cleanup() under the stream mutex
+	if ok := stream.queueSends([]*Packet{{
 		StreamId: heartbeatTopic,
 		Eof:      true,
 		Bytes:    []byte(heartbeatPing),
-	}, sendStart, c.p2p.metrics); ok {
+	}}, sendStart, c.p2p.metrics); ok {
 		c.lastPingSent.Store(sendStart.UnixNano())
 		if c.p2p.metrics != nil {
 			c.p2p.metrics.HeartbeatPingSent.Inc()
@@ -345,11 +346,12 @@ func (c *MultiConn) handleHeartbeatPacket(packet *Packet) {
 			return
 		}
 		sendStart := time.Now()
-		if ok := stream.queueSend(&Packet{
+		// queueSend reads Stream.closed and sends on sendQueue, both written by cleanup() under the stream mutex
+		if ok := stream.queueSends([]*Packet{{
 			StreamId: heartbeatTopic,
 			Eof:      true,
 			Bytes:    []byte(heartbeatPong),
-		}, sendStart, c.p2p.metrics); ok {
+		}}, sendStart, c.p2p.metrics); ok {
 			c.lastPongSent.Store(sendStart.UnixNano())
 			if c.p2p.metrics != nil {
 				c.p2p.metrics.HeartbeatPongSent.Inc()
